@@ -48,8 +48,12 @@ for _pid, _txt in {
     "C10": "Stateless explicit-state search over call HISTORIES on the real objects: states are memo vectors (lru wrapper sizes, lazy slots, CDS path flag, shared Parents, global Parent cache condition) reached by replaying a history on a fresh object; transitions are all public zero-argument accessors (reflection), argument menus, macro calls that overflow method caches and environment actions (evict/clear/twin/alias); every answer is compared in value and concrete type with a cold fresh twin; plus operand snapshots before/after every binary/export operation.",
     "C19": "Exhaustive enumeration of systematically corrupted constructor calls of every data-model class and of the full product of boundary-argument menus over every public method of every catalogue object and of every location of a small layout world (disjoint, zero-length and overlapping blocks); outcome must be a well-formed value or a documented exception.",
     "C20": "Exhaustive exploration of genes / feature collections with 1-3 children of every structure, strand mix, coding mix, primary-flag vector and engineered ties, and annotation collections of <=4 members in every input order x parent kinds x bounds; oracle = pure-Python functions of the child descriptions (span, union of positions, coding, types, primary selection, iteration order, bounds inference).",
+    "C08": "Exhaustive exploration of a generated corpus of every interval/collection class through all chains (length <= 3) over the serialisation transitions dict / data-model / JSON / pickle (successor must equal the origin in ==, to_dict, guid, hash, coordinates, qualifiers, sequence); configuration sweep in sub-processes over PYTHONHASHSEED values and ALL permutations of qualifier key/value insertion order (identifiers must be equal across the axis); every single-field edit must change the identifier.",
+    "C09": "Exhaustive exploration of small annotation collections (all span arrangements x member kinds x parent kinds, boundary worlds straddling 2^17/2^20/2^23) under every (start,end) x 8 flag combinations and every subset of identifiers/GUIDs, re-querying results (depth 2); oracle = set comprehension over child spans, documented bounds, unchanged member dictionaries, sequence restricted to the new bounds; strict queries repeated on a twin with independently recomputed bins.",
+    "C11": "Exhaustive exploration of generated collections (all exon layouts x strands x CDS placements x start frames, frame vectors, isoform pairs/triples, long transcripts, shared qualifier keys, all strings of length <= 2 over the special-character alphabet in every position, reserved keys, identifiers/biotypes, FASTA widths, chunk and truncating windows, refusals): leg 1 independent GFF3 reader + row model, leg 2 library re-parse of gene models, leg 3 export-parse fixpoint.",
+    "C13": "Exhaustive exploration of all references W(N) x ALL sets of 1..k pairwise disjoint variants (alt strings of 0..3 bases) x all locations (<=k blocks, both strands) x chromosome/chunk parents, plus features/transcripts/CDS/genes/collections built on them and all small VCF record lists; oracle = pure-Python edit model (literal substitution, position map, image of a location, edited splice).",
 }.items():
-    reg(_pid, _txt, COMMON_NOTE + ("Additionally trusts the harness-side compatibility layer /verif/vlib/compat (marshmallow 4 / Biopython 1.88 / pyvcf3 shims, self-tested)." if _pid in ("C12", "C17", "C18", "C04", "C07", "C10", "C19", "C20") else ""), T)
+    reg(_pid, _txt, COMMON_NOTE + ("Additionally trusts the harness-side compatibility layer /verif/vlib/compat (marshmallow 4 / Biopython 1.88 / pyvcf3 shims, self-tested)." if _pid in ("C12", "C17", "C18", "C04", "C07", "C10", "C19", "C20", "C08", "C09", "C11", "C13") else ""), T)
 
 NOT_YET = {}
 
